@@ -558,16 +558,26 @@ where
         // Remove the pre-inner alt, to be reinserted later so we always preserve it
         let old_alt = inp.errors.alt.take();
 
-        let out = self.parser.go::<Emit>(inp)?;
+        let out = match self.parser.go::<Emit>(inp) {
+            Ok(out) => out,
+            Err(()) => {
+                // The inner parser failed: its alt stays in place, but the original alt must not be forgotten
+                if let Some(old_alt) = old_alt {
+                    inp.add_alt_err(&old_alt.pos, old_alt.err);
+                }
+                return Err(());
+            }
+        };
         let span = inp.span_since(&before);
         let new_alt = inp.errors.alt.take();
 
         match (self.mapper)(out, span) {
             Ok(out) => {
-                // If successful, reinsert the original alt and then apply the new alt on top of it, since both are valid
+                // If successful, reinsert the original alt and then apply the new alt on top of it (at the position it
+                // was generated at), since both are valid
                 inp.errors.alt = old_alt;
                 if let Some(new_alt) = new_alt {
-                    inp.add_alt_err(&before.inner, new_alt.err);
+                    inp.add_alt_err(&new_alt.pos, new_alt.err);
                 }
                 Ok(M::bind(|| out))
             }
